@@ -6,6 +6,7 @@ import (
 	"bufio"
 	"encoding/json"
 	"fmt"
+	"io/ioutil"
 	"os"
 	"runtime/debug"
 	"time"
@@ -51,6 +52,7 @@ func runCase(c map[string]interface{}) interface{} {
 
 func main() {
 	core.DefaultVerbosity = core.NOTHING
+	core.DefaultLogger = core.NewSimpleLogger(ioutil.Discard) // rulio logs to stdout by default; stdout carries the results
 	in := bufio.NewReaderSize(os.Stdin, 1<<20)
 	out := bufio.NewWriter(os.Stdout)
 	for {
